@@ -86,7 +86,7 @@ theorem updateReverse_old_o2o {fuel : Nat} {o : ObjId} {a : Attr} {v : Option Ob
             else if d.cascade then delete sch fuel u st1
             else if rd.required then .err .constraintError st1
             else attrClearRev sch u (sch.rev a) st1) = .ok st2) :
-    D sch st2.store (Pending o a) ∧ Range st2.store ∧ st2.store.n = s0.n ∧
+    D sch st2.store (Pending o a) ∧ Range st2.store ∧ (st2.store.n = s0.n ∧ st2.store.ent = s0.ent) ∧
       (∀ x, v = some x → st2.store.alive x = true → st2.store.ref o a = some x) ∧ (v = none → st2.store.ref o a = none) ∧
       (∀ p b q, hasB sch st2.store p b q = true → hasB sch s0 p b q = true ∨ (p = o ∧ b = a ∧ v = some q)) := by
   have hrr := sch.rev_rev a
@@ -113,7 +113,7 @@ theorem updateReverse_old_o2o {fuel : Nat} {o : ObjId} {a : Attr} {v : Option Ob
   cases hu : s0.ref o a with
   | none =>
     rw [hu] at h; cases h
-    refine ⟨?_, hR1, by rw [hs1]; rfl, ?_, ?_, ?_⟩
+    refine ⟨?_, hR1, ⟨by rw [hs1]; rfl, by rw [hs1]; rfl⟩, ?_, ?_, ?_⟩
     · intro p b q hp hal hh
       rw [hs1] at hp hal hh ⊢
       simp only [Store.setRef] at hp hal
@@ -131,7 +131,7 @@ theorem updateReverse_old_o2o {fuel : Nat} {o : ObjId} {a : Attr} {v : Option Ob
     · -- self link under a symmetric attribute
       rename_i hself
       cases h
-      refine ⟨?_, hR1, by rw [hs1]; rfl, ?_, ?_, ?_⟩
+      refine ⟨?_, hR1, ⟨by rw [hs1]; rfl, by rw [hs1]; rfl⟩, ?_, ?_, ?_⟩
       · intro p b q hp hal hh
         rw [hs1] at hp hal hh ⊢
         simp only [Store.setRef] at hp hal
@@ -147,7 +147,7 @@ theorem updateReverse_old_o2o {fuel : Nat} {o : ObjId} {a : Attr} {v : Option Ob
       · -- cascade: the previous partner is deleted
         have hu1 : u < st1.store.n := by rw [hs1]; exact hR.1 o a u ho hu
         obtain ⟨hD2, hS2, hC2, hdead⟩ := hdel u st1 st2 _ (fun w => w = u) h hu1 hR1 (hD1 u hu)
-        refine ⟨?_, hS2.range hR1, by rw [hS2.n, hs1]; rfl, ?_, ?_, fun p b q hh => hnew1 p b q (hS2.has hh)⟩
+        refine ⟨?_, hS2.range hR1, ⟨by rw [hS2.n, hs1]; rfl, by rw [hS2.ent, hs1]; rfl⟩, ?_, ?_, fun p b q hh => hnew1 p b q (hS2.has hh)⟩
         · intro p b q hp hal hh
           rcases hD2 p b q hp hal hh with h' | ⟨h' | h', hb⟩
           · exact Or.inl h'
@@ -166,7 +166,7 @@ theorem updateReverse_old_o2o {fuel : Nat} {o : ObjId} {a : Attr} {v : Option Ob
         · -- the previous partner's reference is cleared
           obtain ⟨hs2, _, _⟩ := attrClearRev_ok h
           have hF := frame_clearRev (sch := sch) (s := st1.store) u (sch.rev a)
-          refine ⟨?_, ?_, by rw [hs2, hF.n, hs1]; rfl, ?_, ?_, ?_⟩
+          refine ⟨?_, ?_, ⟨by rw [hs2, hF.n, hs1]; rfl, by rw [hs2, hF.ent, hs1]; rfl⟩, ?_, ?_, ?_⟩
           rotate_left 4
           · intro p b q hh
             rw [hs2, has_clearRev_o2o hra hrd ha' hd] at hh
@@ -210,7 +210,7 @@ theorem updateReverse_ok {fuel : Nat} {o : ObjId} {a : Attr} {old v : Option Obj
     (ha : sch.side a = some d) (hd : d.isColl = false) (hra : sch.side (sch.rev a) = some rd)
     (hs1 : st1.store = s0.setRef o a v) (hold : old = s0.ref o a) (hne : s0.ref o a ≠ v)
     (ho : o < s0.n) (hoal : s0.ref o a ≠ none → s0.alive o = true) (hv : ∀ x, v = some x → x < s0.n) (hA : Agree sch s0) (hR : Range s0) :
-    Agree sch st'.store ∧ Range st'.store ∧ st'.store.n = s0.n ∧ NewLinks sch s0 st'.store o a (v = some ·) := by
+    Agree sch st'.store ∧ Range st'.store ∧ st'.store.n = s0.n ∧ st'.store.ent = s0.ent ∧ NewLinks sch s0 st'.store o a (v = some ·) := by
   subst hold
   unfold updateReverse at h
   have hrr := sch.rev_rev a
@@ -223,7 +223,7 @@ theorem updateReverse_ok {fuel : Nat} {o : ObjId} {a : Attr} {old v : Option Obj
     cases hvv : v with
     | none =>
       rw [hvv] at h2; cases h2
-      refine ⟨?_, hR2, hn2, fun p b q hh => by have := hnew2 p b q hh; rw [hvv] at this; exact this.imp id (fun h => Or.inl h)⟩
+      refine ⟨?_, hR2, hn2.1, hn2.2, fun p b q hh => by have := hnew2 p b q hh; rw [hvv] at this; exact this.imp id (fun h => Or.inl h)⟩
       intro p b q hp hal hh
       rcases hD2 p b q hp hal hh with h' | ⟨⟨rfl, rfl⟩, _⟩
       · exact h'
@@ -233,11 +233,11 @@ theorem updateReverse_ok {fuel : Nat} {o : ObjId} {a : Attr} {old v : Option Obj
       rw [hvv] at h2
       simp only at h2
       obtain ⟨hs3, hxal, _⟩ := attrSetRev_ok h2
-      have hx2 : x < st2.store.n := by rw [hn2]; exact hv x hvv
-      have ho2 : o < st2.store.n := by rw [hn2]; exact ho
+      have hx2 : x < st2.store.n := by rw [hn2.1]; exact hv x hvv
+      have ho2 : o < st2.store.n := by rw [hn2.1]; exact ho
       obtain ⟨hA3, hR3, hnew3⟩ := setRev_closes ha hd hra hrd hD2 hR2 ho2 hx2 (hvx x hvv hxal) hxal
       rw [hs3]
-      refine ⟨hA3, hR3, by rw [(frame_setRev _ _ _).n, hn2], ?_⟩
+      refine ⟨hA3, hR3, by rw [(frame_setRev _ _ _).n, hn2.1], by rw [(frame_setRev _ _ _).ent, hn2.2], ?_⟩
       intro p b q hh
       rcases hnew3 p b q hh with h' | ⟨rfl, rfl, rfl⟩
       · have := hnew2 p b q h'; rw [hvv] at this; exact this.imp id (fun h => Or.inl h)
@@ -269,7 +269,7 @@ theorem updateReverse_ok {fuel : Nat} {o : ObjId} {a : Attr} {old v : Option Obj
         obtain ⟨hm, hs⟩ := reverseAdd1_ok (iter_single_ok h2)
         rw [hs2] at hm hs
         exact Or.inr ⟨x, rfl, hm, hs⟩
-    refine ⟨?_, ?_, ?_, ?_⟩
+    refine ⟨?_, ?_, ?_, ?_, ?_⟩
     · intro p b q hp hal hh
       have a1 := hA p b q
       have a2 := hA o a
@@ -282,6 +282,7 @@ theorem updateReverse_ok {fuel : Nat} {o : ObjId} {a : Attr} {old v : Option Obj
         rw [hs3] <;> refine ⟨?_, ?_⟩ <;> intro p b y hp hy <;> simp only [Store.setMem, Store.setRef] at hp hy ⊢ <;>
         have r1 := hR.1 p b y hp <;> have r2 := hR.2 p b y hp <;> have r3 := hv y <;> grind
     · rcases hcase with ⟨hu, rfl⟩ | ⟨u, hu, hmu, rfl⟩ <;> rcases hst3 with ⟨hvv, hs3⟩ | ⟨x, hvv, hmx, hs3⟩ <;> rw [hs3] <;> rfl
+    · rcases hcase with ⟨hu, rfl⟩ | ⟨u, hu, hmu, rfl⟩ <;> rcases hst3 with ⟨hvv, hs3⟩ | ⟨x, hvv, hmx, hs3⟩ <;> rw [hs3] <;> rfl
     · intro p b q hh
       rcases hcase with ⟨hu, rfl⟩ | ⟨u, hu, hmu, rfl⟩ <;> rcases hst3 with ⟨hvv, hs3⟩ | ⟨x, hvv, hmx, hs3⟩ <;>
         rw [hs3] at hh <;>
@@ -293,7 +294,8 @@ theorem attrSetTop_ok {fuel : Nat} {o : ObjId} {a : Attr} {v : Option ObjId} {st
     (hdel : DelSpec sch (fun x => delete sch fuel x))
     (h : attrSetTop sch fuel o a v st = .ok st') (ha : sch.side a = some d) (hd : d.isColl = false)
     (ho : o < st.store.n) (hv : ∀ x, v = some x → x < st.store.n) (hA : Agree sch st.store) (hR : Range st.store) :
-    Agree sch st'.store ∧ Range st'.store ∧ st'.store.n = st.store.n := by
+    Agree sch st'.store ∧ Range st'.store ∧ st'.store.n = st.store.n ∧ st'.store.ent = st.store.ent ∧
+      NewLinks sch st.store st'.store o a (v = some ·) := by
   unfold attrSetTop at h
   split at h
   · cases h
@@ -306,10 +308,9 @@ theorem attrSetTop_ok {fuel : Nat} {o : ObjId} {a : Attr} {v : Option ObjId} {st
       · cases h
       · simp only at h
         split at h
-        · cases h; exact ⟨hA, hR, rfl⟩
+        · cases h; exact ⟨hA, hR, rfl, rfl, fun _ _ _ hh => Or.inl hh⟩
         · rename_i hne
-          obtain ⟨h1, h2, h3, _⟩ := updateReverse_ok hdel h ha hd hrd rfl rfl hne ho (fun _ => hal') hv hA hR
-          exact ⟨h1, h2, h3⟩
+          exact updateReverse_ok hdel h ha hd hrd rfl rfl hne ho (fun _ => hal') hv hA hR
     · cases h
 
 end setref
